@@ -73,6 +73,11 @@ SENSITIVITY = {
     "r10b": ("seeded/r10b/patch.diff", "C17", ["result-mismatch", "data-race"], "B (Miri): CubicSpline segment memo whose guard releases a flag it never acquired"),
     "r10c": ("seeded/r10c/patch.diff", "C18", ["wrong-target", "callback-invariant", "concurrent-operation-affected", "query-element-not-delivered"], "A: re-entrant n-d batch inside an n-d batch (thread-local index cursor)"),
     "r10d": ("seeded/r10d/patch.diff", "C18", ["callback-invariant", "wrong-target"], "A: index_point on data whose trailing axes are permuted among themselves (Mix layouts)"),
+    "r11a": ("seeded/r11a/patch.diff", "C17", ["result-mismatch"], "C (shuttle) / B: Mutex+Condvar single-flight cache whose waiter does not re-check the key (segments i and i+8)"),
+    "r11b": ("seeded/r11b/patch.diff", "C17", ["result-mismatch", "answers-differ-between-processes", "process-history-dependence", "entry-point-mismatch", "reference-unstable"], "C (simulated clock) / B (Miri virtual clock): evaluation kernel re-tuned once per second from timings"),
+    "r11c": ("seeded/r11c/patch.diff", "C18", ["wrong-target", "query-element-not-delivered", "callback-invariant", "error-swallowed"], "A: large batches evaluated on library worker threads, chunk starts off when rows % 4 != 0"),
+    "r11d": ("seeded/r11d/patch.diff", "C18", ["callback-invariant"], "A: strategy calls get_index_left_of on an out-of-range query, then is_in_range between the axis end and that query"),
+    "M16": ("mutants/M16.diff", "C17", ["answers-differ-between-processes", "process-history-dependence"], "A: evaluation order picked once per process from the hasher's random seed"),
 }
 # seeded/r7d is kept but not listed: its author reads C18 as forbidding one-point axes for strategies
 # with declared minimum <= 1; the statement's parenthesis does not (see seeded/r7d/meta.json, DESIGN 14.3)
@@ -84,6 +89,7 @@ BENIGN = {
     "B3": ("mutants/B3.diff", "general path rejects wrongly shaped buffers up front"),
     "B4": ("mutants/B4.diff", "general path accepts strided buffers (layout-agnostic sub-view)"),
     "B5": ("mutants/B5.diff", "different wording of the out-of-range error"),
+    "B7": ("mutants/B7.diff", "a CORRECT parallel evaluation of large batches on library worker threads (seeded change r11c with its chunk arithmetic repaired; adds Self: Sync bounds to interp_array*)"),
     "B6": ("mutants/B6.diff", "a mutex held for the whole batch: blocks under the baton, the watchdog releases the run (lost_control), answers unchanged"),
 }
 
